@@ -956,3 +956,92 @@ Example ex_chained_flags :
          mkVar "sigma_transformed" false false false true false false;
          mkVar "sigma_transformed_transformed" true false true false false true].
 Proof. reflexivity. Qed.
+
+(* ------------------------------------------------------------------------------------------ *)
+(* 7. the code variant of _transform_back (deprecated path, chained)                            *)
+(* ------------------------------------------------------------------------------------------ *)
+Section Variant.
+  Context {P A : Type}.
+  Variable D : P -> dist_inst.
+
+  (* the repaired variant is the chain_up the positive theorems are about *)
+  Theorem chain_up_proxy : forall (ls : list (@link A)) newest p0 args0 v0 p args t,
+    List.length args0 = List.length args ->
+    chain_up_v D Proxy newest ls p0 args0 v0 p args t = chain_up D ls p args t.
+  Proof.
+    induction ls as [ | l older IH]; intros newest p0 args0 v0 p args t Hlen.
+    - destruct args, args0; cbn in *; try discriminate; reflexivity.
+    - destruct args as [ | a args'], args0 as [ | a0 args0']; cbn in Hlen; try discriminate.
+      + reflexivity.
+      + injection Hlen as Hlen. cbn [chain_up_v chain_up].
+        replace (if newest then Some t else Some t) with (Some t) by (destruct newest; reflexivity).
+        destruct (chain_dist D older p args') as [d | ]; [ | reflexivity].
+        destruct (r_value (transform_by (l_path l) (fun _ : unit => d) (l_spec l) tt a 0) tt a t) as [v | ];
+          [ | reflexivity].
+        rewrite (IH false p0 args0' v0 p args' v Hlen). reflexivity.
+  Qed.
+
+  (* as long as no variable created by the deprecated method is transformed again, the as-found
+     variant behaves identically (in particular: every single transformation) *)
+  Lemma chain_up_rawnode_pvar : forall (ls : list (@link A)) newest p0 args0 v0 p args t,
+    List.length args0 = List.length args ->
+    List.Forall (fun l => l_path l = PVar) ls ->
+    chain_up_v D RawNode newest ls p0 args0 v0 p args t = chain_up D ls p args t.
+  Proof.
+    induction ls as [ | l older IH]; intros newest p0 args0 v0 p args t Hlen Hall.
+    - destruct args, args0; cbn in *; try discriminate; reflexivity.
+    - destruct args as [ | a args'], args0 as [ | a0 args0']; cbn in Hlen; try discriminate.
+      + reflexivity.
+      + injection Hlen as Hlen. inversion Hall as [ | l' older' Hl Ho]; subst.
+        cbn [chain_up_v chain_up]. rewrite Hl.
+        replace (if newest then Some t else Some t) with (Some t) by (destruct newest; reflexivity).
+        destruct (chain_dist D older p args') as [d | ]; [ | reflexivity].
+        destruct (r_value (transform_by PVar (fun _ : unit => d) (l_spec l) tt a 0) tt a t) as [v | ];
+          [ | reflexivity].
+        rewrite (IH false p0 args0' v0 p args' v Hlen Ho). reflexivity.
+  Qed.
+
+  Theorem variants_agree_unless_rechained : forall (l : @link A) (older : list (@link A)) p0 args0 v0 p args t,
+    List.length args0 = List.length args ->
+    List.Forall (fun l => l_path l = PVar) older ->
+    chain_up_v D RawNode true (l :: older) p0 args0 v0 p args t = chain_up D (l :: older) p args t.
+  Proof.
+    intros l older p0 args0 v0 p args t Hlen Hall.
+    destruct args as [ | a args'], args0 as [ | a0 args0']; cbn in Hlen; try discriminate; [reflexivity | ].
+    injection Hlen as Hlen. cbn [chain_up_v chain_up].
+    destruct (chain_dist D older p args') as [d | ]; [ | reflexivity].
+    destruct (r_value (transform_by (l_path l) (fun _ : unit => d) (l_spec l) tt a 0) tt a t) as [v | ];
+      [ | reflexivity].
+    rewrite (chain_up_rawnode_pvar older false p0 args0' v0 p args' v Hlen Hall). reflexivity.
+  Qed.
+End Variant.
+
+(* the code as found: x ~ Gamma(2, 1) with value 3, GraphBuilder.transform(x, Exp()) then
+   GraphBuilder.transform(t1, Scale(2)); after assigning t2 = 1/4 the intermediate variable follows
+   (t1 = 1/2) but the original stays frozen at 3, which is not the image exp(2 * 1/4) *)
+Theorem dep_chain_rawnode_refuted :
+  exists (ls : list (@link unit)) p args v0 t bs vals,
+    chain_resolve dGamma ls p args = Some bs
+    /\ lawful_list bs all_R pos_R
+    /\ pos_R v0
+    /\ chain_up_v dGamma RawNode true ls p args v0 p args t = Some vals
+    /\ last vals t = v0
+    /\ last vals t <> fwd (compose bs) t
+    /\ chain_up_v dGamma Proxy true ls p args v0 p args t = Some (images bs t).
+Proof.
+  exists [mkLink PDeprecated (@BInst unit (bScale 2)); mkLink PDeprecated (BInst bExp)].
+  exists (2, 1, ln 1), [tt; tt], 3, (1 / 4), [bScale 2; bExp], [2 * (1 / 4); exp (ln 3)].
+  assert (E3 : exp (ln 3) = 3) by (apply exp_ln; lra).
+  split; [reflexivity | split; [ | split; [unfold pos_R; lra | split; [reflexivity | split; [exact E3 | split]]]]].
+  - apply (ll_cons _ _ all_R all_R pos_R); [apply lawful_scale; lra | ].
+    apply (ll_cons _ _ all_R pos_R pos_R); [apply lawful_exp | apply ll_nil].
+  - cbn. rewrite E3. intro Heq.
+    assert (Hlt : exp (2 * (1 / 4)) < 3).
+    { apply Rlt_le_trans with (exp 1); [apply exp_increasing; lra | apply exp_le_3]. }
+    lra.
+  - rewrite chain_up_proxy by reflexivity.
+    destruct (chain_compute dGamma
+                [mkLink PDeprecated (@BInst unit (bScale 2)); mkLink PDeprecated (BInst bExp)]
+                (2, 1, ln 1) [tt; tt] [bScale 2; bExp] eq_refl) as [dk [_ [_ [Hup _]]]].
+    apply Hup.
+Qed.
